@@ -841,6 +841,13 @@ def run(res, tier):
     if got11 != ["falls-off:operator=", "unset:plan"]:
         raise AnalysisBroken("positive control fixtures/c15_special_members.cpp: reported %s, expected the assignment without return and the move constructor's plan" % got11)
     res.instance("C15.11.value-returned", "positive control", "verif:fixtures/c15_special_members.cpp", "2 of 2 seeded constructs reported, 3 harmless ones silent")
+    res.rule("C15.13 what the tree remembers about its groups (a position of the group that answered last, a directory, a slot table) is reset by rebuild(): a remembered position past the end of the refilled containers is an out-of-bounds access at the next query (rule C13.5)")
+    import c13
+    sub13 = tbf.Result("C13")
+    nd13 = c13.derived_state(facts, sub13)
+    for v in sub13.violations:
+        res.violation("C15.13.remembered-positions", v["file"], v["function"], v["key"], v["line"], v["msg"])
+    res.instance("C15.13.remembered-positions", "TbfTree derived members", "src/core/tbftree.hpp", "%d members filled from the groups outside construction" % nd13)
     res.rule("C15.5 a member that stores the address of an element of a container member is reset by every member function that clears / refills / reallocates that container")
     np_, nc_ = member_pointers_into_containers(facts, res)
     res.instance("C15.5.member-pointer-lifetime", "classes of src/core and src/algorithms", "umbrella 'core'", "%d classes with pointer-typed members examined, %d members hold addresses of container elements" % (nc_, np_))
